@@ -23,7 +23,7 @@ def plane_lens_numbers(ctx, vig=True):
     return d
 
 
-def plane_lens(ctx, vig=True, numbers=None):
+def plane_lens(ctx, vig=True, numbers=None, extra_field=False):
     """2 plane surfaces (glass slab) + image, two fields (the second with symbolic vignetting factors)"""
     from optiland.optic import Optic
     d = numbers or plane_lens_numbers(ctx, vig)
@@ -39,6 +39,9 @@ def plane_lens(ctx, vig=True, numbers=None):
         o.add_field(y=d['fy'], vx=d['vx'], vy=d['vy'])
     else:
         o.add_field(y=d['fy'])
+    if extra_field:
+        # a third field declared OUT of ascending order (between the two others)
+        o.add_field(y=d['fy'] * 0.5)
     o.add_wavelength(0.55, is_primary=True)
     return o
 
@@ -114,13 +117,14 @@ def cases_queries(tier):
 
 
 @harness('C13', 'H2_no_side_effects', cases=cases_queries, funcs=FUNCS,
-         bounds='K=2 lens (symbolic radii, thicknesses, index) for paraxial/aberration queries, plane-surface slab with vignetted '
-                'fields for the ray-trace queries; each query family once; prescription dictionary and snapshot before/after',
+         bounds='K=2 lens (symbolic radii, thicknesses, index) for paraxial/aberration queries, plane-surface slab with three vignetted '
+                'fields declared out of ascending order for the ray-trace queries; each query family once; prescription dictionary and snapshot before/after',
          doc='queries (paraxial, aberrations, trace, trace_generic, paraxial trace) do not change the prescription, fields, wavelengths '
              'or aperture; repeating the query returns the same values')
 def h2_no_side_effects(ctx, q):
     if q in ('trace', 'trace_generic'):
-        o = plane_lens(ctx, vig=True)     # (freedom from side effects does not depend on the surface shapes)
+        # (freedom from side effects does not depend on the surface shapes); the field list is not in ascending order
+        o = plane_lens(ctx, vig=True, extra_field=True)
     else:
         L = Lens(ctx, 2, (), 1, 'inf', tpos=True)
         o = L.build(aperture=('EPD', ctx.real('epd', lo=0.1, hi=10.0)), fields=(0.0, ctx.real('fy', lo=0.1, hi=20.0)))
